@@ -142,6 +142,9 @@ func (h *Handler) handlePropfind(w http.ResponseWriter, r *http.Request) error {
 		}
 		propfind.AllProp = &struct{}{}
 	}
+	if propfind.PropName == nil && propfind.AllProp == nil && propfind.Prop == nil {
+		return HTTPErrorf(http.StatusBadRequest, "webdav: request missing propname, allprop or prop element")
+	}
 
 	depth := DepthInfinity
 	if s := r.Header.Get("Depth"); s != "" {
